@@ -301,6 +301,29 @@ def run(facts, tier):
                         t7.violate(f"arity/{kw}/{nargs}", f"`{kw}` with {nargs} arguments is {'rejected' if rejected else 'accepted'}; the grammar says it must be {'rejected' if want_reject else 'accepted'}", where=m_["arms"][sure[0][0]]["sp"])
     rules.append(t7.finish())
 
+    # ---------------- T15.8 operands of binary constructs are combined left to right
+    t8 = Rule("T15.8", "constructs with two multi-valued operands (`f + g`, comparisons, `{(k): v}`) nest their operands in source order: the value evaluator hands the "
+              "operands to the cartesian-product helper in the order of the term's fields, so that `{(k): v}` is `k as $k | v as $v | ..` (key varies slowest) as the manual says", floor=3)
+    from c02 import evaluator as _evaluator, pat_binds as _pat_binds
+    f_run, m_run = _evaluator(facts, "run")
+    if m_run is None:
+        t8.missing_anchor("TermId::run")
+    else:
+        n_c = 0
+        for a in m_run["arms"]:
+            pos = {i_: p_ for p_, ids in _pat_binds(a["pat"]).items() for i_ in ids}
+            for call in find(a["body"], lambda n: n.get("k") == "Call" and str((strip(n["f"]).get("path") or {}).get("def", "")).startswith("jaq_core::filter::") and len(n.get("args", [])) >= 2):
+                ids = [(strip(x).get("path") or {}).get("id") for x in call["args"][:2]]
+                if ids[0] in pos and ids[1] in pos and ids[0] != ids[1]:
+                    n_c += 1
+                    ok = pos[ids[0]] < pos[ids[1]]
+                    t8.examined((a["sp"], call["sp"]), True, {"arm": a["sp"], "operands_in_source_order": ok})
+                    if not ok:
+                        t8.violate("operand-order", "the value evaluator hands two operands of a term to the product helper in reverse order: the second operand becomes the outer loop (`{(\"a\",\"b\"): (1,2)}` yields a1 b1 a2 b2 instead of a1 a2 b1 b2)", where=call["sp"])
+        if n_c < 3:
+            t8.missing_anchor(f"two-operand arms of the value evaluator that use the product helper ({n_c} found)")
+    rules.append(t8.finish())
+
     # ---------------- T15.6 `@fmt "..."` in key position keeps its format
     t6 = Rule("T15.6", "a format-prefixed string used as a key (`{@base64 \"k\\(f)\": v}`, `.@uri \"..\"`) is parsed into a string term carrying that format, like in term position", floor=2)
     fn = facts.hir_find(r"^jaq_core::load::parse::Parser::<.*>::str_key$", "jaq_core")
